@@ -30,6 +30,9 @@ where
         Ok(t) => t,
         Err(pn) => return Err(Fail::new(format!("derivative panicked: {pn}"), detail(json!(pn)))),
     };
+    if let Some(c) = d.iter().chain(sd.iter()).find(|c| !c.is_finite()) {
+        return Err(Fail::new("derivative of finite coefficients returned a non-finite number", detail(json!({"number": fj(*c), "derivative": fjs(&d)}))));
+    }
     let want_len = if n == 1 { 1 } else { n - 1 };
     if d.len() != want_len {
         return Err(Fail::new("derivative has the wrong degree", detail(json!({"derivative": fjs(&d)}))));
